@@ -29,8 +29,17 @@ Proof. exact hostile_no_panic. Qed.
    frames cut inside its last frame yields the whole frames and ends with an error (cut = 4: below) *)
 Theorem C16_monitor : forall c e ops, env_ok e -> Forall hop_wf ops ->
   hcut c <> 4%nat ->
+  (mode c = MServer -> wheel_env e) ->
   c16_ok c e ops (fst (hrun c e ops)) = true.
 Proof. exact c16_monitor_holds. Qed.
+
+(* wheel_env (server mode only): the timer wheel is not AHEAD of the clock by the default
+   deadline or more -- physically always true (the wheel only advances to instants that have
+   passed), but not implied by dq_env, and necessary: otherwise a probe's 10 s timer is born
+   expired and its response is dropped *)
+Theorem C16_wheel_env_necessary : forall c e, env_ok e -> mode c = MServer -> ~ wheel_env e ->
+  c16_ok c e [SProbe 0%N] (fst (hrun c e [SProbe 0%N])) = false.
+Proof. exact wheel_env_necessary. Qed.
 
 (* KNOWN FINDING (eof-after-length-header): cut exactly after a 4-byte length header the stream
    ends cleanly, which the monitor rejects *)
@@ -47,8 +56,8 @@ Theorem C16_truncated_frames_error : forall c ops,
 Proof. exact ShippedProofs.strict_monitor_holds. Qed.
 
 (* the harness's virtual clock lies inside the ranges *)
-Theorem C16_std_env_ok : env_ok std_env.
-Proof. exact std_env_ok. Qed.
+Theorem C16_std_env_ok : env_ok std_env /\ wheel_env std_env.
+Proof. exact (conj std_env_ok std_env_wheel). Qed.
 
 (* ---- the arithmetic, for EVERY decoded Duration and EVERY caller-chosen Instant ---- *)
 
@@ -122,6 +131,7 @@ Proof. vm_compute. reflexivity. Qed.
 
 Print Assumptions C16_no_panic_run.
 Print Assumptions C16_monitor.
+Print Assumptions C16_wheel_env_necessary.
 Print Assumptions C16_truncation_header_refuted.
 Print Assumptions C16_truncated_frames_error.
 Print Assumptions C16_std_env_ok.
